@@ -70,6 +70,10 @@ func (p *prop) Generate(rng *core.Rand, tier string, emit func(string)) {
 	for i := 0; i < nSite/2; i++ {
 		emit(genBindCase(rgl))
 	}
+	// ---- `servers { name }` renames: determinism over many adaptations, no server lost
+	for i := 0; i < nSite/6; i++ {
+		emit(genRenameCase(rgl))
+	}
 	// ---- token-level mutations of the corpus
 	rm := rng.Fork()
 	for i := 0; i < nMut && len(p.corpus) > 0; i++ {
